@@ -107,7 +107,7 @@ def _judge(fails, tag, fam, lib_obj_fn, case, px, refs, Dx, Dy, kf=None):
 # ------------------------------------------------------------------------------------------ feature models
 def _pool_feat(tier):
     # (Dx, Dy, Dk, Rx)
-    base = [(1, 1, 1, 1), (1, 2, 2, 2), (2, 1, 2, 1), (2, 2, 3, 2), (1, 3, 3, 3), (2, 2, 1, 3), (3, 2, 4, 2), (4, 3, 5, 1), (1, 2, 5, 2)]
+    base = [(1, 1, 1, 1), (1, 2, 2, 2), (2, 1, 2, 1), (2, 2, 3, 2), (1, 3, 3, 3), (2, 2, 1, 3), (3, 2, 4, 2), (4, 3, 5, 1), (1, 2, 5, 2), (2, 2, 17, 1), (3, 1, 20, 2)]
     if tier == "thorough":
         base += [(2, 3, 2, 1), (1, 1, 3, 2), (2, 1, 1, 2), (1, 2, 1, 1), (3, 3, 2, 3), (4, 1, 4, 2), (2, 2, 5, 2), (5, 2, 3, 1)]
     return base
@@ -118,9 +118,11 @@ def _strategy_feat(shapes):
     def s(draw):
         Dx, Dy, Dk, Rx = draw(st.sampled_from(shapes))
         kind = draw(st.sampled_from(gen.FEATURE_KINDS))
+        # p(x) is a full density or (a fifth of the cases, Dx >= 2) a GaussianDiagPDF
+        px_diag = Dx >= 2 and draw(st.sampled_from([False] * 4 + [True]))
         return {"Dx": Dx, "Dy": Dy, "Dk": Dk, "Rx": Rx, "kind": kind, "c": draw(gen.feature_params(kind, Dx, Dy, Dk)),
-                "px": {"Sigma": draw(gen.spd(Rx, Dx, kappa=6.0, lam_lo=0.15, lam_hi=0.4)), "mu": draw(gen.arr((Rx, Dx), -1.5, 1.5))},
-                "x": draw(gen.arr((3, Dx), -2, 2))}
+                "px": {"Sigma": draw(gen.spd(Rx, Dx, kappa=6.0, lam_lo=0.15, lam_hi=0.4, diag=px_diag)), "mu": draw(gen.arr((Rx, Dx), -1.5, 1.5))},
+                "px_diag": px_diag, "x": draw(gen.arr((3, Dx), -2, 2))}
     return s()
 
 
@@ -136,7 +138,7 @@ def _run_feat(case):
         return np.concatenate([X, kfun(X)], 1) @ M.T + b
 
     ok, c = lib(fails, "construct_feature", libx.make_feature, case["c"])
-    ok2, px = lib(fails, "construct_px", libx.make_measure, "pdf", case["px"])
+    ok2, px = lib(fails, "construct_px", libx.make_measure, "diag_pdf" if case.get("px_diag") else "pdf", case["px"])
     if not (ok and ok2):
         return fails
     # read-out: conditional mean is the stated linear read-out of x and of unit-height bumps
@@ -244,9 +246,11 @@ def _strategy_het(shapes):
     def s(draw):
         Dx, Dy, Da, Dk, Rx = draw(st.sampled_from(shapes))
         kind = draw(st.sampled_from(gen.HET_KINDS))
+        px_diag = Dx >= 2 and draw(st.sampled_from([False] * 4 + [True]))
         return {"Dx": Dx, "Dy": Dy, "Da": Da, "Dk": Dk, "Rx": Rx, "kind": kind,
                 "c": draw(gen.het_params(kind, Dx, Dy, Da, Dk, wscale=draw(st.sampled_from([0.3, 1.0])))),
-                "px": draw(gen.measure_params("pdf", Rx, Dx, draw(st.sampled_from([5.0, 30.0])))),
+                "px_diag": px_diag,
+                "px": draw(gen.measure_params("diag_pdf" if px_diag else "pdf", Rx, Dx, draw(st.sampled_from([5.0, 30.0])))),
                 "x": draw(gen.arr((3, Dx), -2, 2))}
     return s()
 
@@ -263,7 +267,7 @@ def _run_het(case):
     Ak = A[:, :Dk]
     AAt = A @ A.T
     ok, c = lib(fails, "construct_het", libx.make_het, p)
-    ok2, px = lib(fails, "construct_px", libx.make_measure, "pdf", case["px"])
+    ok2, px = lib(fails, "construct_px", libx.make_measure, "diag_pdf" if case.get("px_diag") else "pdf", case["px"])
     if not (ok and ok2):
         return fails
     # read-out of the object itself: mean Mx+b, covariance AA' + A_k diag(link(Wx+w0)) A_k'
@@ -316,9 +320,9 @@ def _nontrivial_het(case):
 
 SUBS = [
     Sub("feature", _pool_feat, _strategy_feat, _run_feat, _nontrivial_feat,
-        lambda c: [f"kind={c['kind']}", f"Dx={c['Dx']}", f"Rx={c['Rx']}"],
+        lambda c: [f"kind={c['kind']}", f"Dx={c['Dx']}", f"Rx={c['Rx']}", f"Dk={'>16' if c['Dk'] > 16 else '<=5'}", "px=diag" if c.get("px_diag") else "px=full"],
         examples={"quick": 50, "thorough": 300}, shards={"quick": 9, "thorough": 17}, rule="(Dk>=2 or Dx>=2) and overlap"),
     Sub("heteroscedastic", _pool_het, _strategy_het, _run_het, _nontrivial_het,
-        lambda c: [f"kind={c['kind']}", f"Dx={c['Dx']}", f"Rx={c['Rx']}", "Da>Dy" if c["Da"] > c["Dy"] else "Da=Dy"],
+        lambda c: [f"kind={c['kind']}", f"Dx={c['Dx']}", f"Rx={c['Rx']}", "Da>Dy" if c["Da"] > c["Dy"] else "Da=Dy", "px=diag" if c.get("px_diag") else "px=full"],
         examples={"quick": 60, "thorough": 350}, shards={"quick": 8, "thorough": 12}, rule="(Dk>=2 or Dx>=2), non-zero offsets, overlap"),
 ]
